@@ -22,6 +22,7 @@
 //@ clause C15.accept.ptr    usize/isize: range(coltype, signedness) contains the value => Ok
 //@ clause C15.noninteger    a non-integer column type is refused
 //@ clause C15.refuse.clean  Err => nothing was written
+//@ clause C15.notnull       no integer value reports is_null() (the trait default must not be overridden into something value-dependent)
 //@ clause C07.bin.nopanic   the encoder returns (Ok or Err) and never panics, for every column descriptor
 #![allow(unused_imports)]
 use crate::value::ToMysqlValue;
@@ -48,6 +49,7 @@ macro_rules! c15 {
             let c = col_flags(ct, flags);
             let mut b = Buf::<16>::new();
             let r = noerr(v.to_mysql_bin(&mut b, &c));
+            vk_assert!(!v.is_null(), "[C15.notnull] an integer reports is_null(): the row writer would send NULL instead of it");
             if let Some((lo, hi, w)) = int_range(ct, unsigned) {
                 vk_cover!(r.is_ok() && w == 8, "cover: accepted into LONGLONG");
                 if r.is_ok() {
